@@ -20,6 +20,8 @@ OBLIGATIONS = [
     "KafVerif.C34.icebergOld_total_alloc_unbounded",
     "KafVerif.C34.count_guard_is_widened",
     "KafVerif.C34.int32_product_guard_admits_unbounded_count",
+    "KafVerif.C34.varint_overflow_is_error",
+    "KafVerif.C34.scanRecord_total",
     "KafVerif.C34.icebergOld_headerCount_panics",
     "KafVerif.C34.sqlOld_headerCount_panics",
     "KafVerif.C34.icebergOld_recordLength_unbounded",
@@ -157,6 +159,13 @@ def adv_int(rng, honest, remaining=None):
     return honest + rng.choice([-2, -1, 1, 2, 5])
 
 
+def avar(rng, v):
+    """Encoding of a varint field of the random stream: mostly canonical, sometimes an over-long / overflowing encoding."""
+    if rng.chance(1, 16):
+        return rng.choice(OVERLONG)
+    return var(v)
+
+
 def adv_record(rng, od):
     key = S.gen_bytes(rng, maxlen=12)
     val = S.gen_bytes(rng, maxlen=20)
@@ -165,20 +174,20 @@ def adv_record(rng, od):
     for _ in range(nh):
         hk = rng.bytes(rng.choice([0, 1, 3]))
         hv = S.gen_bytes(rng, maxlen=6)
-        hdr += var(adv_int(rng, len(hk))) + hk
-        hdr += var(adv_int(rng, -1 if hv is None else len(hv))) + (hv or b"")
+        hdr += avar(rng, adv_int(rng, len(hk))) + hk
+        hdr += avar(rng, adv_int(rng, -1 if hv is None else len(hv))) + (hv or b"")
     body = bytes([rng.choice([0, 0, 0, 1, 255])])
     tsd = rng.choice(S.TS_DELTAS + HUGE + [-2 ** 63])
-    body += var(tsd) if rng.chance(9, 10) else b"\xff" * rng.choice([5, 9, 10, 11])
-    body += var(adv_int(rng, od))
-    body += var(adv_int(rng, -1 if key is None else len(key))) + (key or b"")
-    body += var(adv_int(rng, -1 if val is None else len(val))) + (val or b"")
-    body += var(adv_int(rng, nh, remaining=len(hdr))) + hdr
+    body += avar(rng, tsd) if rng.chance(9, 10) else b"\xff" * rng.choice([5, 9, 10, 11])
+    body += avar(rng, adv_int(rng, od))
+    body += avar(rng, adv_int(rng, -1 if key is None else len(key))) + (key or b"")
+    body += avar(rng, adv_int(rng, -1 if val is None else len(val))) + (val or b"")
+    body += avar(rng, adv_int(rng, nh, remaining=len(hdr))) + hdr
     if rng.chance(1, 8):
         body += rng.bytes(rng.choice([1, 2, 7]))      # trailing garbage inside the record
     if rng.chance(1, 8):
         body = body[:rng.below(len(body) + 1)]        # truncated record
-    return var(adv_int(rng, len(body), remaining=len(body))) + body
+    return avar(rng, adv_int(rng, len(body), remaining=len(body))) + body
 
 
 def adv_batch(rng, base):
@@ -305,6 +314,96 @@ def overflow_probes(rng, per_var_field):
         for v in vals:
             segs.append(field_probe(f, v)[1])
     return segs, idxs
+
+
+# ---- over-long / overflowing varints ------------------------------------------------------------
+# A varint reader that is not the hand-written loop (encoding/binary.Varint, a copied protobuf reader, ...) reports a
+# 64-bit overflow differently: binary.Varint returns a NEGATIVE byte count, others wrap silently.  The encodings
+# below are the boundary of what fits 64 bits (nine 0xff + 0x01 / + 0x00: legal), what does not (10th byte > 1), what
+# runs past 10 bytes (11+, all-0xff runs, 0x80 padding) and the same boundary for the sql decoder's int32 reader
+# (5th byte; `shift > 28`).
+OVERLONG = [
+    b"\xff" * 9 + b"\x01",          # legal: 2^64-1
+    b"\xff" * 9 + b"\x00",          # legal, non-canonical
+    b"\xff" * 9 + b"\x02",          # 10th byte > 1: overflows 64 bits (binary.Varint: n = -10)
+    b"\xff" * 9 + b"\x7f",
+    b"\x80" * 9 + b"\x02",
+    b"\x80" * 9 + b"\x01",          # legal: 2^63
+    b"\xff" * 10 + b"\x01",         # 11 bytes
+    b"\xff" * 10 + b"\x00",
+    b"\x80" * 10 + b"\x00",
+    b"\xff" * 11,                   # all-0xff runs (the bytes after the run belong to the same varint)
+    b"\xff" * 12 + b"\x00",
+    b"\xff" * 20 + b"\x01",
+    b"\xff" * 4 + b"\x0f",          # int32 reader boundary: legal
+    b"\xff" * 4 + b"\x10",          # 5th byte overflows 32 bits
+    b"\xff" * 4 + b"\x7f",
+    b"\xff" * 5 + b"\x00",          # 6 bytes: past the int32 reader's `shift > 28`
+    b"\x80" * 5 + b"\x01",
+]
+VARINT_POS = ["recordLen", "tsDelta", "offDelta", "keyLen", "valueLen", "headerCount", "headerKeyLen", "headerValueLen"]
+VP_FIRST, VP_MAX = 1700000000000, 1700000001000      # the probe batch: firstTimestamp <= cut-off < maxTimestamp
+VP_CUTS = [VP_FIRST, VP_FIRST + 500, VP_MAX - 1]
+VP_INDEX = b"IDX\x00" + struct.pack(">HIiH", 1, 1, 1, 0) + struct.pack(">qi", 0, 32)
+
+
+def varint_record(pos, enc, od=0):
+    """A well-formed record (key, value, one header) whose varint at position `pos` is replaced by the bytes `enc`."""
+    f = {"tsDelta": var(0), "offDelta": var(od), "keyLen": var(1), "valueLen": var(2), "headerCount": var(1),
+         "headerKeyLen": var(1), "headerValueLen": var(1)}
+    if pos in f:
+        f[pos] = enc
+    body = (b"\x00" + f["tsDelta"] + f["offDelta"] + f["keyLen"] + b"k" + f["valueLen"] + b"vv" + f["headerCount"] +
+            f["headerKeyLen"] + b"h" + f["headerValueLen"] + b"x")
+    return (enc if pos == "recordLen" else var(len(body))) + body
+
+
+def mk_batch_ts(count, recs, first, mx, base=0):
+    tail = struct.pack(">hiqqqhii", 0, max(0, count - 1), first, mx, -1, -1, -1, count) + recs
+    return struct.pack(">qIiB", base, 9 + len(tail), 0, 2) + struct.pack(">I", S.crc32c(tail)) + tail
+
+
+def good_record(od):
+    return varint_record(None, b"", od)
+
+
+def varint_probes(rng, quick):
+    """(segment, cut-off) pairs: every varint position x every OVERLONG encoding, the crafted record placed first /
+    in the middle / last in an uncompressed 3-record batch that straddles the cut-off (so that the PITR scanner runs
+    scanRecord over it and the decoders reach it after well-formed records)."""
+    out = []
+    k = 0
+    for pos in VARINT_POS:
+        for enc in OVERLONG:
+            places = (0, 1, 2) if (not quick or pos in ("recordLen", "tsDelta", "offDelta")) else (rng.below(3),)
+            for place in places:
+                recs = [good_record(i) for i in range(3)]
+                recs[place] = varint_record(pos, enc, place)
+                seg = wrap_seg(mk_batch_ts(3, b"".join(recs), VP_FIRST, VP_MAX))
+                out.append((seg, VP_CUTS[k % 3]))
+                k += 1
+    # the crafted record as the only record, and in the second batch after a batch that is kept whole
+    for pos in ("tsDelta", "offDelta"):
+        for enc in OVERLONG:
+            out.append((wrap_seg(mk_batch_ts(1, varint_record(pos, enc), VP_FIRST, VP_MAX)), VP_CUTS[k % 3]))
+            whole = mk_batch_ts(2, good_record(0) + good_record(1), VP_FIRST - 10, VP_FIRST - 5)
+            out.append((wrap_seg(whole + mk_batch_ts(2, good_record(0) + varint_record(pos, enc, 1), VP_FIRST, VP_MAX, base=2)),
+                        VP_CUTS[k % 3]))
+            k += 1
+    return out
+
+
+def varint_ops(probes):
+    out = []
+    for j, (s, cut) in enumerate(probes):
+        h = S.tokb(s)
+        out.append(("iceberg", "dec " + h, (len(s), 0)))
+        out.append(("sql", "dec " + h, (len(s), 0)))
+        out.append(("root", "scanrecs " + h, (len(s), 0)))
+        out.append(("root", "collect %d %s" % (cut, h), (len(s), 0)))
+        if j % 4 == 0:
+            out.append(("root", "plan %d %d %s %s" % (cut, 1700000000123, h, S.tokb(VP_INDEX)), (len(s), len(VP_INDEX))))
+    return out
 
 
 def gen_inputs(ck, n, valid_segments):
@@ -501,7 +600,11 @@ def run(ck):
                       "lying batch lengths), mutations (bit flips, truncation, spliced huge varints, overwritten 32-bit fields) of "
                       "broker-written segments, adversarial index files, and overflow-band probes (each 32-bit count/length field "
                       "set to every value ceil(2^31/k)+-1, ceil(2^32/k)+-1, band middles, for k in 2..16,24,40,61,64,112; varint fields "
-                      "sampled from the int32 and int64 bands); each fed to iceberg/sql decodeSegment+parseIndex and to the PITR "
+                      "sampled from the int32 and int64 bands), and over-long varint probes (every varint position of a record - record "
+                      "length, timestamp delta, offset delta, key/value length, header count, header key/value length - x 17 encodings: "
+                      "nine 0xff + 0x00/0x01 (legal boundary), 10th byte > 1, 11+ bytes, all-0xff runs, 0x80 padding, the int32 reader's "
+                      "5-byte boundary; crafted record first / middle / last in an uncompressed batch with firstTimestamp <= cut-off < "
+                      "maxTimestamp so that the PITR scanner runs scanRecord over it); each fed to iceberg/sql decodeSegment+parseIndex and to the PITR "
                       "scanner/collector/plan builder; non-trivial = passes the magic/size checks (reaches the batch loop); distinct = distinct ops")
     # valid segments to mutate: written by the real BuildSegment
     vrng = ck.rng.fork()
@@ -517,6 +620,9 @@ def run(ck):
     segs = [f() for _, f in FIXED] + overlap_probes() + lsegs + psegs + segs
     idxs = lidxs + pidxs + idxs
     triples = make_ops(segs, idxs, ck.rng.fork())
+    vprobes = varint_probes(ck.rng.fork(), ck.quick())
+    ck.count("overlong_varint_probes", len(vprobes))
+    triples = varint_ops(vprobes) + triples
     import glob, os
     for fn in sorted(glob.glob(os.path.join(lib.REPLAYS, "C34", "*.json"))):     # corpus first
         try:
